@@ -77,7 +77,7 @@ def run(cases, tier='quick', seed=0):
         run_impl = staticmethod(live.run_impl)
         # handed-out states are the committed hierarchy; every update due at an instant is committed whatever the
         # listing order (also when another update of the batch deletes its process)
-        oracle = staticmethod(lambda c, ob, rng: live.oracle(c, ob, rng) + live.oracle_inflight(c, ob, rng) +
+        oracle = staticmethod(lambda c, ob, rng: live.oracle(c, ob, rng) + live.oracle_inflight(c, ob, rng, report_moved=False) +
                               live.oracle_rels(c, ob, rng))
         nontrivial, stat_key = staticmethod(live.nontrivial), staticmethod(live.stat_key)
         render = staticmethod(live.render)     # the rebuild points of _send_updates / run_steps vs Model/Views.v
